@@ -156,6 +156,9 @@ def process(cases, driver_ok, execute, dec_len=0, dec_runs=0):
             if not c.real.mirror_ok:
                 st['fails'].append({'what': 'successor and predecessor links of the real nodes do not mirror each other: ' + c.real.mirror_detail,
                                     'case': {'source': c.source, 'key': c.key}, 'pred': None})
+            for why in c05_real.stmt_edge_failures(c.real)[:2]:
+                st['fails'].append({'what': 'statement-level edges disagree with the node graph: ' + why,
+                                    'case': {'source': c.source, 'key': c.key}, 'pred': None})
             if c.real.unknown_nodes:
                 broken(st, 'correspondence:c05.graph', '%s: graph node outside the serialised AST' % c.key)
             g = c.real.graphs.get(fid)
